@@ -199,6 +199,13 @@ class Gen(object):
         x = self.r.random()
         if depth > 0 and x < 0.45:
             r['schema'] = self.rules(depth - 1, validation_only=validation_only, no_rename=True)
+            # rules about unknown / required fields on the sequence itself: they say nothing about the items, whose mappings
+            # go by the enclosing validator's settings (decided from x, so that the random stream of the other rules is kept)
+            y = int(x * 100000)
+            if y % 6 == 0:
+                r['allow_unknown'] = y % 4 < 2
+            elif y % 6 == 1:
+                r['require_all'] = y % 4 < 2
         elif depth > 0 and x < 0.7:
             r['items'] = [self.rules(depth - 1, validation_only=validation_only, no_rename=True)
                           for _ in range(self.r.randint(0, 3))]
